@@ -5,6 +5,7 @@ import (
 	"go/ast"
 	"go/token"
 	"go/types"
+	"os"
 	"sort"
 	"strings"
 
@@ -69,6 +70,7 @@ type VC struct {
 	bindErrors  []string
 	specDepth   int
 	safety      bool
+	dynSig      *types.Signature
 }
 
 type loopInfo struct {
@@ -605,6 +607,9 @@ func (vc *VC) loopMods(fr *Frame, li *loopInfo) (map[string]bool, bool) {
 		for _, ins := range b.Instrs {
 			if vc.instrMods(fr, ins, mods, 0) {
 				all = true
+				if os.Getenv("GOVC_DEBUG") != "" {
+					fmt.Fprintf(os.Stderr, "loop %d of %s: havoc-all because of %v\n", li.ordinal, fr.fn, ins)
+				}
 			}
 		}
 	}
